@@ -1,7 +1,7 @@
 (* C17 - Stopping a scan early yields an exact prefix and ends the
    transaction.  Property theorems only; proofs are in Proofs/. *)
-From SQ Require Import Model.Base Model.Record Model.Btree Model.Cmp Model.Low
-     Spec.Flat Spec.Deliver Proofs.SearchP Proofs.DeliverP Proofs.LowP Proofs.ScanP.
+From SQ Require Import Model.Base Model.Record Model.Btree Model.Cmp Model.Low Model.High
+     Spec.Flat Spec.Deliver Proofs.SearchP Proofs.DeliverP Proofs.LowP Proofs.ScanP Proofs.HighP.
 
 (* any list of rows, any k: exactly the first k are delivered, unchanged, in
    order, and the result is "stopped", not an error *)
@@ -69,3 +69,14 @@ Example C17_example :
   run_cb (stop_after (Some 2%nat)) [10; 20; 30; 40] [] = (Stop, [20; 10]) /\
   fst (deliver (stop_after (Some 2%nat)) [10; 20; 30; 40] []) = [10; 20].
 Proof. vm_compute. split; reflexivity. Qed.
+
+(* the high level SelectDone (Model/High.v): exactly the first k rows, mapped, then "stopped";
+   what follows them in the tree - a damaged page included (oe) - plays no role *)
+Theorem C17_select : forall pg op npages sc ms table columns ci root l oe k,
+  master pg op npages = (Continue, ms) -> s_worowid sc = false ->
+  to_ci_rowid sc columns = Ok ci -> find_root ms name_table table = Ok root ->
+  table_rows pg op npages root = (l, oe) -> (1 <= k <= length l)%nat ->
+  h_select pg op npages _ (stop_after (Some k)) sc table columns []
+  = (Stop, rev (firstn k (map (fun x => to_row (fst x) ci (snd x)) l))).
+Proof. exact select_stops. Qed.
+Print Assumptions C17_select.
